@@ -269,3 +269,31 @@ N("queue aliased to a local", ["C10"],
     "        queue = self.factory.queuePublishTx[cnx]\n        while queue and len(self.factory.windowPublish[cnx]) < self._window:\n            request = queue.popleft()")])
 N("window test flipped", ["C10"],
   [(PS, "len(self.factory.windowPublish[cnx]) < self._window:", "self._window > len(self.factory.windowPublish[cnx]):")])
+
+# ---------------------------------------------------------------- C13
+B("handleSUBACK without cancel", ["C13"],
+  [(PS, "            del self.factory.windowSubscribe[self.addr][response.msgId]\n            request.alarm.cancel()\n", "            del self.factory.windowSubscribe[self.addr][response.msgId]\n")], {"C13": ["R-CANCEL"]})
+B("loss path without the publish cancel loop", ["C13"],
+  [(PS, "        for _, request in self.factory.windowPublish[self.addr].items():\n            if request.alarm is not None:\n                request.alarm.cancel()\n                request.alarm = None\n        for _, request in self.factory.windowPubRelease", "        for _, request in self.factory.windowPubRelease")],
+  {"C13": ["R-LOSS"]})
+B("purge without cancel (D8 re-introduced)", ["C13"],
+  [(PS, "            del self.factory.windowPublish[self.addr][k]\n            if request.alarm is not None:\n                request.alarm.cancel()\n                request.alarm = None\n", "            del self.factory.windowPublish[self.addr][k]\n")], {"C13": ["R-CANCEL"]})
+B("resume without cancel-before-re-arm (D9 re-introduced)", ["C13"],
+  [(PS, "            if request.alarm is not None:\n                request.alarm.cancel()\n            self._retryPublish(request, dup=True)", "            self._retryPublish(request, dup=True)")], {"C13": ["R-ARM"]})
+B("connectionLost without timer.stop()", ["C13"],
+  [(BASE, "            self._pingReq.timer.stop()\n", "")], {"C13": ["R-LOSS"]})
+B("doPingError keeps its fired handle (D13 re-introduced)", ["C13"],
+  [(BASE, "            self._pingReq.alarm = None\n            self.transport.abortConnection()", "            self.transport.abortConnection()")], {"C13": ["H-FIRED"]})
+B("keepalive loop started unconditionally", ["C13"],
+  [(BASE, "            if request.keepalive != 0:\n                self._pingReq.keepalive = request.keepalive\n                self._pingReq.timer     = task.LoopingCall(self.ping)\n                self._pingReq.timer.start(request.keepalive)",
+    "            if True:\n                self._pingReq.keepalive = request.keepalive\n                self._pingReq.timer     = task.LoopingCall(self.ping)\n                self._pingReq.timer.start(request.keepalive)")], {"C13": ["K-ZERO"]})
+B("handlePUBCOMP without cancel", ["C13"],
+  [(PS, "            reply.alarm.cancel()\n            reply.deferred.callback(reply.msgId)", "            reply.deferred.callback(reply.msgId)")], {"C13": ["R-CANCEL"]})
+B("retry re-armed from the PUBACK handler of another request", ["C13"],
+  [(PS, "            self._refillPublish(dup=False)\n\n    # --------------------------------------------------------------------------\n\n    def handlePUBREC",
+    "            self._refillPublish(dup=False)\n            for _, other in self.factory.windowPublish[self.addr].items():\n                self._retryPublish(other, dup=True)\n\n    # --------------------------------------------------------------------------\n\n    def handlePUBREC")], {"C13": ["R-ARM"]})
+N("None test written as truthiness", ["C13"],
+  [(PS, "        for _, request in self.factory.windowSubscribe[self.addr].items():\n            if request.alarm is not None:\n                request.alarm.cancel()\n                request.alarm = None\n        for _, request in self.factory.windowUnsubscribe",
+    "        for _, request in self.factory.windowSubscribe[self.addr].items():\n            if request.alarm:\n                request.alarm.cancel()\n                request.alarm = None\n        for _, request in self.factory.windowUnsubscribe")])
+N("cancel before del in handleSUBACK", ["C13"],
+  [(PS, "            del self.factory.windowSubscribe[self.addr][response.msgId]\n            request.alarm.cancel()\n", "            request.alarm.cancel()\n            del self.factory.windowSubscribe[self.addr][response.msgId]\n")])
